@@ -4,6 +4,7 @@ import FractopoModel.Generated.ValidatorTable
 import FractopoModel.Spec.Validators
 import FractopoModel.Lemmas.NodeJunctions
 import FractopoModel.Lemmas.IntersectionFilter
+import FractopoModel.Generated.GeneralNodes
 /-!
 # C02 — validation verdicts on crisp configurations
 
@@ -121,6 +122,45 @@ theorem C02_generated_intersection_filter {L P : Type} (inter : List P) (ends_of
     Gen.intersection_points_no_vnode inter ends_of close cands geom =
       inter.filter fun p => !((IntersectionFilter.activeEnds ends_of close cands geom).any fun ge => close ge p) :=
   IntersectionFilter.generated_eq_spec inter ends_of close cands geom
+
+/-- the node tuples of one row: the intersection points that are not V-nodes (by `C02_generated_intersection_filter`) and the ends that are
+not within the tolerance of such an intersection point; nothing for a row that is not a non-empty LineString -/
+def rowNodes {G P : Type} (is_line is_ls : G → Bool) (bboxq : Nat → G → List Nat) (inter0 : List G → G → List P) (ends_of : G → List P)
+    (close4 close3 : P → P → Bool) (geoms : List G) (gi : G × Nat) : List P × List P :=
+  if !is_line gi.1 then ([], [])
+  else
+    let cands := (((bboxq gi.2 gi.1).erase gi.2).filterMap fun i => geoms[i]?).filter is_ls
+    let inter := (inter0 cands gi.1).filter fun p => !((IntersectionFilter.activeEnds ends_of close4 cands gi.1).any fun ge => close4 ge p)
+    (inter, (ends_of gi.1).filter fun e => !(inter.any fun ig => close3 e ig))
+
+theorem general_nodes_loop_eq {G P : Type} (is_line is_ls : G → Bool) (bboxq : Nat → G → List Nat) (inter0 : List G → G → List P) (ends_of : G → List P)
+    (close4 close3 : P → P → Bool) (geoms : List G) (l : List (G × Nat)) (a b : List (List P)) :
+    Gen.general_nodes_loop1 is_line is_ls bboxq inter0 ends_of close4 close3 geoms () l a b =
+      (a ++ l.map (fun gi => (rowNodes is_line is_ls bboxq inter0 ends_of close4 close3 geoms gi).1),
+       b ++ l.map (fun gi => (rowNodes is_line is_ls bboxq inter0 ends_of close4 close3 geoms gi).2)) := by
+  induction l generalizing a b with
+  | nil => simp [Gen.general_nodes_loop1]
+  | cons gi rest ih =>
+    obtain ⟨g, i⟩ := gi
+    rw [Gen.general_nodes_loop1]
+    by_cases hl : is_line g = true
+    · simp only [hl, Bool.not_true, Bool.false_eq_true, if_false, ih, C02_generated_intersection_filter]
+      simp [rowNodes, hl]
+    · have hl' : is_line g = false := by simpa using hl
+      simp only [hl', Bool.not_false, if_true, ih]
+      simp [rowNodes, hl']
+
+/-- **One node-tuple pair per row, in row order, each computed from that row's own candidates.** The regenerated loop of
+`determine_general_nodes` yields for every row exactly `rowNodes` -- a row that is not a non-empty LineString gets empty tuples and
+does not disturb the positions of the others (the trace index = tuple index convention of junction marking relies on this) -/
+theorem C02_generated_general_nodes {G P : Type} (is_line is_ls : G → Bool) (bboxq : Nat → G → List Nat) (inter0 : List G → G → List P) (ends_of : G → List P)
+    (close4 close3 : P → P → Bool) (geoms : List G) :
+    Gen.general_nodes is_line is_ls bboxq inter0 ends_of close4 close3 geoms =
+      (geoms.zipIdx.map (fun gi => (rowNodes is_line is_ls bboxq inter0 ends_of close4 close3 geoms gi).1),
+       geoms.zipIdx.map (fun gi => (rowNodes is_line is_ls bboxq inter0 ends_of close4 close3 geoms gi).2)) := by
+  unfold Gen.general_nodes
+  simp only [general_nodes_loop_eq]
+  simp
 
 /-- non-vacuity: the trace (ends 0, 9) shares end 0 with a candidate (ends 0, 5); of its intersection points 0, 0 and 4 both copies
 of 0 are dropped -/
